@@ -66,6 +66,9 @@ def main() -> int:
         # check has on the unchanged tree: that is a concrete failing execution (the traceback is the replay).  If it was
         # raised in the harness itself it is a fault of the machinery: exit 2, no verdict.
         import common
+        if isinstance(e, common.LibraryMisbehaved):
+            ck.violation(f"{pid.lower()}:{e.key}", e.what + " (the remaining scenarios of this run were not executed)", dict(e.detail))
+            return ck.finish()
         tb = traceback.extract_tb(e.__traceback__)
         lib = str(common.REPO.resolve() / "aioesphomeapi")
         inner = tb[-1] if tb else None
